@@ -223,9 +223,13 @@ def run(rep):
     rep.add("history-corpus", c18_hist.evaluate(hist_corpus))
     hcases = c18_hist.cases_for(rep.tier, rng)
     rep.add("history", c18_hist.evaluate(hcases))
+    rep.add("project-frame-corpus", c18_hist.evaluate_frame(json.load(open(os.path.join(vlib.VERIF, "corpus", "C18", "histories", "frame.json")))))
+    fcases = c18_hist.frame_cases(rep.tier)
+    rep.add("project-frame", c18_hist.evaluate_frame(fcases))
+    rep.extra.setdefault("distribution", {})["project-frame"] = {"cases": len(fcases), "cli_runs": 2 * len(fcases)}
     rep.extra.setdefault("distribution", {})["history"] = {
         "cases": len(hcases), "cli_runs": 4 * len(hcases), "routes": c18_hist.ROUTES, "edits": c18_hist.EDITS,
-        "sources": c18_hist.SOURCES, "names": list(c18_hist.NAMES)}
+        "sources": c18_hist.SOURCES, "names": list(c18_hist.NAMES), "shapes": list(c18_hist.SHAPES)}
     cases = []
     for t in spines18(2):
         for m in tables_for(t, rng, thorough):
@@ -272,7 +276,11 @@ def replay(rep, payload):
         c = it["case"]
         if c.get("what") == "history":
             vlib.build_repo_bin()
-            rep.add("history", c18_hist.evaluate([{k: c[k] for k in ("route", "edit", "source", "mode", "name")}]))
+            rep.add("history", c18_hist.evaluate([{k: c[k] for k in ("route", "edit", "source", "mode", "name", "shape") if k in c}]))
+            continue
+        if c.get("what") == "project-frame":
+            vlib.build_repo_bin()
+            rep.add("project-frame", c18_hist.evaluate_frame([{k: c[k] for k in ("events", "pos", "split_files", "source", "mode", "target")}]))
             continue
         want = {(c["site"], c["mode"])} if "site" in c else None
         outs, _ = evaluate([{"ty": c["tree"], "mappings": c["mappings"]}], want=want)
